@@ -8,8 +8,11 @@ plan: {"schema": {...}, "gen": "int"|"uuid"|"user", "userids": [...], "obs": {..
 """
 import itertools
 import json
+import operator
 import os
+import re
 import sys
+import uuid
 
 import xtuml
 
@@ -53,6 +56,40 @@ def encode(v, ty):
     return '?:%s:%r' % (type(v).__name__, v)
 
 
+SPELLERS = [lambda s: s, lambda s: s.lower(), lambda s: s.upper(), lambda s: s.swapcase(),
+            lambda s: s[:1].lower() + s[1:].upper()]
+
+
+def spell(name, k):
+    return SPELLERS[k % len(SPELLERS)](name)
+
+
+_SER = re.compile(r'^\s+(.*?),? -- (\w+) : (\w+)$')
+
+
+def parse_serialized(text):
+    """values of one INSERT statement written by xtuml.serialize_instance -> {name: token}"""
+    row = {}
+    for line in text.splitlines():
+        m = _SER.match(line)
+        if not m:
+            continue
+        v, n, ty = m.group(1), m.group(2), m.group(3).upper()
+        if ty == 'BOOLEAN':
+            row[n] = 'b:%d' % int(v)
+        elif ty == 'INTEGER':
+            row[n] = 'i:%d' % int(v)
+        elif ty == 'REAL':
+            row[n] = 'r:%r' % float(v)
+        elif ty == 'STRING':
+            row[n] = 's:' + v[1:-1].replace("''", "'")
+        elif ty == 'UNIQUE_ID':
+            row[n] = 'u:%d' % uuid.UUID(v[1:-1]).int
+        else:
+            row[n] = '?:' + v
+    return row
+
+
 class UserGen(xtuml.IdGenerator):
     def __init__(self, ids):
         self.ids = list(ids)
@@ -93,6 +130,15 @@ class World(object):
         self.m = build_metamodel(self.schema, make_generator(plan))
         self.h = {c: [] for c in self.schema['classes']}     # class -> handles by ordinal-1
         self.types = {c: {a['n']: a['t'] for a in self.schema['attrs'][c]} for c in self.schema['classes']}
+        self.genkind = plan.get('gen', 'int')
+        self.opt = plan.get('opt', {})
+        self.refs = {c: set(k for a in self.schema['assocs'] if a['src'] == c for k in a['skeys'])
+                     for c in self.schema['classes']}
+        self.step = 0
+
+    def cname(self, c):
+        """class name as the caller spells it (C10: any letter case addresses the same class)"""
+        return spell(c, self.step) if self.opt.get('spell_class') else c
 
     def inst(self, c, i):
         return self.h[c][i - 1]
@@ -109,45 +155,178 @@ class World(object):
     # ---- projection of the abstract state through the public API ----
     def project(self):
         sch = self.schema
-        pool = {c: self.ords(c, self.m.select_many(c)) for c in sch['classes']}
+        pool = {c: self.ords(c, self.m.select_many(self.cname(c))) for c in sch['classes']}
         nav = []
         for a in sch['assocs']:
-            f = [self.ords(a['src'], xtuml.navigate_many(t).nav(a['src'], a['rel'], a['tphrase'])())
+            f = [self.ords(a['src'], xtuml.navigate_many(t).nav(self.cname(a['src']), a['rel'], a['tphrase'])())
                  for t in self.h[a['tgt']]]
-            b = [self.ords(a['tgt'], xtuml.navigate_many(s).nav(a['tgt'], a['rel'], a['sphrase'])())
+            b = [self.ords(a['tgt'], xtuml.navigate_many(s).nav(self.cname(a['tgt']), a['rel'], a['sphrase'])())
                  for s in self.h[a['src']]]
             nav.append({'fwd': f, 'bwd': b})
         attr = {}
+        spl = {c: [] for c in sch['classes']}
+        ser = {c: [] for c in sch['classes']}
         for c in sch['classes']:
             rows = []
             for x in itertools.islice(iter(self.m.select_many(c)), LIMIT):
                 row = {}
                 for a in sch['attrs'][c]:
-                    try:
-                        row[a['n']] = encode(getattr(x, a['n']), a['t'])
-                    except AttributeError:
-                        row[a['n']] = 'absent'
+                    row[a['n']] = self.read(x, a['n'], a['t'])
                 rows.append(row)
+                if self.opt.get('spell_attr'):
+                    spl[c].append({a['n']: [self.read(x, sp(a['n']), a['t']) for sp in SPELLERS[1:]]
+                                   for a in sch['attrs'][c]})
+                if self.opt.get('serialize'):
+                    try:
+                        ser[c].append(parse_serialized(xtuml.serialize_instance(x)))
+                    except Exception as e:
+                        ser[c].append({a['n']: 'error:' + type(e).__name__ for a in sch['attrs'][c]})
             attr[c] = rows
-        return {'pool': pool, 'nav': nav, 'attr': attr}
+        return {'pool': pool, 'nav': nav, 'attr': attr, 'spell': spl, 'ser': ser}
+
+    @staticmethod
+    def read(x, name, ty):
+        try:
+            return encode(getattr(x, name), ty)
+        except AttributeError:
+            return 'absent'
+
+    # ---- observations (MetaObs.tla Eval) ----
+    def start(self, f, k, sized=False):
+        if f['k'] == 'none':
+            return None
+        if f['k'] == 'inst':
+            return self.inst(f['c'], f['i'])
+        if f['k'] == 'all':
+            s = self.m.select_many(self.cname(f['c']))
+        else:
+            s = self.m.select_many(self.cname(f['c']), *self.ops(f['ops'], k))
+        # any iterable is a legal start: query set, list, generator
+        return [s, list(s), (x for x in list(s))][k % (2 if sized else 3)]
+
+    def ops(self, ops, k):
+        out = []
+        for j, op in enumerate(ops):
+            if op['k'] == 'eq':
+                kv = {(spell(n, k + j) if self.opt.get('spell_attr') else n): decode(v) for n, v in op['kv']}
+                out.append(xtuml.where_eq(**kv) if (k + j) % 2 else kv)
+            elif op['k'] == 'lam':
+                fn = {'eq': operator.eq, 'ne': operator.ne, 'lt': operator.lt, 'le': operator.le,
+                      'gt': operator.gt, 'ge': operator.ge}[op['cmp']]
+                out.append(lambda sel, fn=fn, n=op['n'], v=decode(op['v']): fn(getattr(sel, n), v))
+            elif op['k'] == 'ord':
+                out.append((xtuml.reverse_order_by if op['rev'] else xtuml.order_by)(*op['ns']))
+        return out
+
+    def observe(self, o, k):
+        R = lambda e='', r=(), n=0, b=False, s='': {'e': e, 'r': list(r), 'n': n, 'b': b, 's': s}
+        try:
+            kind = o['k']
+            if kind == 'sel':
+                if o['form'] == 'many':
+                    return R(r=self.ords(o['c'], self.m.select_many(self.cname(o['c']), *self.ops(o['ops'], k))))
+                fn = self.m.select_one if k % 2 else self.m.select_any
+                x = fn(self.cname(o['c']), *self.ops(o['ops'], k))
+                return R(r=[] if x is None else self.ords(o['c'], [x]))
+            if kind == 'nav':
+                start = self.start(o['from'], k)
+                last = o['chain'][-1][0] if o['chain'] else o['from']['c']
+                if o['form'] == 'many':
+                    ch = xtuml.navigate_many(start)
+                elif o['form'] == 'one':
+                    ch = xtuml.navigate_one(start)
+                else:
+                    ch = xtuml.navigate_any(start)
+                for j, (kd, rel, ph) in enumerate(o['chain']):
+                    num = int(rel[1:]) if (k + j) % 2 and rel[1:].isdigit() else rel
+                    if (k + j) % 3 == 0:
+                        ch = ch.nav(self.cname(kd), num, ph)
+                    else:
+                        ch = getattr(ch, self.cname(kd))[(num, ph) if ph or j % 2 else num]
+                out = ch(*self.ops(o['ops'], k))
+                if o['form'] == 'many':
+                    return R(r=self.ords(last, out))
+                return R(r=[] if out is None else self.ords(last, [out]))
+            if kind == 'sub':
+                x = xtuml.navigate_subtype(self.inst(o['c'], o['i']), int(o['rel'][1:]) if k % 2 else o['rel'])
+                if x is None:
+                    return R()
+                kd = xtuml.get_metaclass(x).kind
+                return R(r=self.ords(kd, [x]), s=kd)
+            if kind == 'card':
+                return R(n=xtuml.cardinality(self.start(o['from'], k, sized=True)))
+            if kind == 'chk_assoc':
+                rel = o['rel']
+                if rel == '':
+                    return R(n=xtuml.check_association_integrity(self.m))
+                return R(n=xtuml.check_association_integrity(self.m, int(rel[1:]) if k % 2 else rel))
+            if kind == 'chk_id':
+                return R(n=xtuml.check_uniqueness_constraint(self.m, self.cname(o['c']) if o['c'] else None))
+            if kind == 'consistent':
+                return R(b=bool(self.m.is_consistent()))
+            if kind == 'chk_sub':
+                return R(n=xtuml.check_subtype_integrity(self.m, self.cname(o['c']), o['rel']))
+            if kind == 'sort':
+                if o['all']:
+                    qs = self.m.select_many(o['c'])
+                else:
+                    qs = xtuml.QuerySet([self.inst(o['c'], i) for i in o['sub']])
+                out = xtuml.sort_reflexive(qs, int(o['rel'][1:]) if k % 2 else o['rel'], o['ph'])
+                return R(r=self.ords(o['c'], out))
+            raise SystemExit('unknown observation %r' % (o,))
+        except CallTimeout:
+            raise
+        except xtuml.MetaException as e:
+            return R(e=type(e).__name__)
+        except Exception as e:
+            return R(e='PY:' + type(e).__name__)
 
     # ---- actions ----
     def act(self, act, k, ev):
         name = act[0]
         if name == 'New':
             c, pos, kw = act[1], act[2], act[3] if len(act) > 3 else {}
-            ev.update({'c': c, 'pos': list(pos), 'kw': dict(kw) if kw else {'_': '_'}})
+            ev.update({'c': c, 'pos': list(pos), 'kw': dict(kw) if kw else {'_': '_'}, 'ids': [], 'g': -1})
             inst = None
             before = len(self.m.find_metaclass(c).storage)
+            kwargs = {(spell(n, k) if self.opt.get('spell_attr') else n): decode(t) for n, t in (kw or {}).items()}
             try:
-                inst = self.m.new(c, *[decode(t) for t in pos], **{n: decode(t) for n, t in (kw or {}).items()})
+                if k % 2:
+                    inst = self.m.new(self.cname(c), *[decode(t) for t in pos], **kwargs)
+                else:
+                    inst = self.m.find_metaclass(self.cname(c))(*[decode(t) for t in pos], **kwargs)
             finally:
                 st = self.m.find_metaclass(c).storage
                 if inst is None and len(st) > before:
                     inst = st[-1]                     # created although the call failed
                 if inst is not None:
                     self.h[c].append(inst)
+                    slots = [a['n'] for a in self.schema['attrs'][c]
+                             if a['t'].upper() == 'UNIQUE_ID' and a['n'] not in self.refs[c]]
+                    ev['ids'] = [self.read(inst, n, 'UNIQUE_ID') for n in slots]
+                if self.genkind == 'int':
+                    ev['g'] = self.m.id_generator.peek() - 1
             return ev, 'none'
+        if name == 'NewUnknown':
+            ev.update({'c': act[1]})
+            self.m.new(act[1])
+            return ev, 'none'
+        if name in ('SetAttr', 'DelAttr'):
+            c, i, n = act[1], act[2], act[3]
+            sp = spell(n, k)
+            ev.update({'x': [c, i], 'n': n, 'sp': sp})
+            if name == 'SetAttr':
+                ev['v'] = act[4]
+                setattr(self.inst(c, i), sp, decode(act[4]))
+            else:
+                delattr(self.inst(c, i), sp)
+            return ev, 'none'
+        if name in ('GenNext', 'GenPeek'):
+            g = self.m.id_generator
+            ev['id'] = ''
+            v = (g.next() if k % 2 else next(g)) if name == 'GenNext' else g.peek()
+            ev['id'] = encode(v, 'UNIQUE_ID')
+            return ev, ev['id']
         if name in ('Relate', 'Unrelate'):
             cx, ix, cy, iy, rel, ph = act[1:7]
             ev.update({'x': [cx, ix], 'y': [cy, iy], 'rel': rel, 'ph': ph})
@@ -176,10 +355,11 @@ class World(object):
         raise SystemExit('unknown action %r' % (act,))
 
 
-def run(plan, acts):
+def run(plan, acts, obs=None):
     w = World(plan)
     events = []
     for k, act in enumerate(acts):
+        w.step = k
         ev = {'op': act[0]}
         try:
             with limit(10.0):
@@ -192,24 +372,31 @@ def run(plan, acts):
             res = 'PY:' + type(e).__name__
         ev['res'] = res
         ev['oerr'] = ''
-        ev.update({'pool': {c: [] for c in plan['schema']['classes']}, 'nav': [],
-                   'attr': {c: [] for c in plan['schema']['classes']}})
+        empty = {c: [] for c in plan['schema']['classes']}
+        ev.update({'pool': dict(empty), 'nav': [], 'attr': dict(empty), 'spell': dict(empty), 'ser': dict(empty),
+                   'q': [], 'qr': []})
+        if ev['op'] in ('DelAttr',) and res.startswith('PY:'):
+            res = res[3:]
+            ev['res'] = res
         try:
-            with limit(10.0):
+            with limit(20.0):
                 ev.update(w.project())
+                qs = (obs[k] if obs and k < len(obs) else []) or []
+                ev['qr'] = [w.observe(o, k + j) for j, o in enumerate(qs)]
+                ev['q'] = qs
         except CallTimeout:
             ev['oerr'] = 'Timeout'
         except Exception as e:
             ev['oerr'] = '%s: %s' % (type(e).__name__, e)
         events.append(ev)
-        if res == 'Timeout' or ev['oerr']:
+        if res == 'Timeout' or ev['oerr'] or ev['op'] == 'NewUnknown':
             break
     return events
 
 
 def main(plan_path, out_path):
     plan = json.load(open(plan_path))
-    out = [run(plan, r['acts']) for r in plan['runs']]
+    out = [run(plan, r['acts'], r.get('obs')) for r in plan['runs']]
     json.dump(out, open(out_path, 'w'))
 
 
